@@ -36,6 +36,7 @@ type caseT struct {
 	Cuts      []int    `json:"cuts,omitempty"` // the segmentation that differed
 	Family    string   `json:"family,omitempty"`
 	ReadLimit int      `json:"read_limit,omitempty"` // Config.ReadLimit of the engine (0: 1 GiB)
+	BodyLimit int      `json:"body_limit,omitempty"` // Config.MaxHTTPBodySize of the engine (0: none)
 }
 
 // ---------------------------------------------------------------- recording processor
@@ -207,6 +208,7 @@ func clientHandler(res *http.Response, err error) {
 
 var engine *nbhttp.Engine
 var curReadLimit int // read limit of the stream being checked (0: the default engine)
+var curBodyLimit int // Config.MaxHTTPBodySize of the stream being checked (0: none)
 
 var stateNames = []string{"Close", "MethodBefore", "Method", "PathBefore", "Path", "ProtoBefore", "Proto", "ProtoLF",
 	"ClientProtoBefore", "ClientProto", "StatusCodeBefore", "StatusCode", "StatusBefore", "Status", "StatusLF",
@@ -240,17 +242,21 @@ type outcome struct {
 // parse feeds the segments to a fresh parser and stops at the first error,
 // which is what the engine does (it closes the connection).
 // limited returns an engine like the default one with the given read limit.
-var limitedEngines = map[int]*nbhttp.Engine{}
+var limitedEngines = map[[2]int]*nbhttp.Engine{}
 
-func limited(n int) *nbhttp.Engine {
-	if e := limitedEngines[n]; e != nil {
+func limited(n, body int) *nbhttp.Engine {
+	k := [2]int{n, body}
+	if e := limitedEngines[k]; e != nil {
 		return e
 	}
 	if len(limitedEngines) > 64 {
-		limitedEngines = map[int]*nbhttp.Engine{}
+		limitedEngines = map[[2]int]*nbhttp.Engine{}
 	}
-	e := nbhttp.NewEngine(nbhttp.Config{Handler: http.HandlerFunc(serverHandler), ReadLimit: n})
-	limitedEngines[n] = e
+	if n == 0 {
+		n = 1 << 30
+	}
+	e := nbhttp.NewEngine(nbhttp.Config{Handler: http.HandlerFunc(serverHandler), ReadLimit: n, MaxHTTPBodySize: body})
+	limitedEngines[k] = e
 	return e
 }
 
@@ -269,8 +275,8 @@ func parse(rec *recorder, pass string, client bool, segs [][]byte, wantState boo
 		}
 	}
 	eng := engine
-	if curReadLimit > 0 {
-		eng = limited(curReadLimit)
+	if curReadLimit > 0 || curBodyLimit > 0 {
+		eng = limited(curReadLimit, curBodyLimit)
 	}
 	p := nbhttp.NewParser(conn, eng, proc, client, nil)
 	var o outcome
@@ -426,8 +432,11 @@ func normErr(s string) string {
 
 func runStream(r *h.Run, c caseT, stream []byte, rng func(string) []int, pairs bool, nRandom int, wantMsgs int) {
 	ck := &checker{r: r, c: c, stream: stream, client: c.Kind == "response", rec: &recorder{}, base: map[string]outcome{}, failed: map[string]bool{}}
-	curReadLimit = c.ReadLimit
-	defer func() { curReadLimit = 0 }()
+	curReadLimit, curBodyLimit = c.ReadLimit, c.BodyLimit
+	defer func() { curReadLimit, curBodyLimit = 0, 0 }()
+	if c.BodyLimit > 0 {
+		r.Count("streams_with_a_body_limit_equal_to_their_longest_body", 1)
+	}
 	if c.ReadLimit > 0 {
 		r.Count("streams_with_a_read_limit_equal_to_their_length", 1)
 	}
@@ -570,6 +579,18 @@ func main() {
 			// never exceeds the stream itself, so no segmentation may be refused for its length
 			// when the one-piece parse is not (and the limit is in force in every state)
 			c.ReadLimit = len(stream)
+		}
+		if i%4 == 2 {
+			// a body limit the longest body of the stream just meets (shorter ones are below it): whether a
+			// body is accepted or refused for its size must not depend on where the reads fall
+			for _, m := range msgs {
+				if m.BodyLen > c.BodyLimit {
+					c.BodyLimit = m.BodyLen
+				}
+			}
+			if c.BodyLimit > 1 && i%8 == 6 {
+				c.BodyLimit-- // the longest body is one byte over the limit
+			}
 		}
 		c.Stream = base64.StdEncoding.EncodeToString(stream)
 		c.Literal = h.Hex(stream, 600)
